@@ -185,3 +185,41 @@ Section Best.
       if (multi_only && (length c <=? 1)) || negb (all_notnan r) then true
       else is_max_at r (index_of k c)) out.
 End Best.
+
+(* ---- the ranking score of the left / linear / right modes, DERIVED from its stated definition ----
+   "segment fit quality times relative height": the only oracle is the fit quality lf.r2 of a slice of the curve
+   (np.corrcoef inside); peak, weights, their normalisation and the product are computed here.
+   py: knee_ranking.py:172-236 smooth_ranking *)
+Section Smooth.
+  Context {N : Num}.
+  Variable r2 : nat -> nat -> T N.                  (* lf.r2(x[a:b], y[a:b]) — keyed by the Python slice bounds *)
+  Variable ys : list (T N).
+
+  (* py: knee_ranking.py:203-210 *)
+  Definition smooth_fit (m : fmode) (j kl k : nat) : T N :=
+    match m with
+    | MLinear => (r2 j (k + 1) +! r2 k kl) /! two
+    | MLeft => r2 j (k + 1)
+    | _ => r2 k kl
+    end.
+
+  Fixpoint mul_lists (a b : list (T N)) : list (T N) :=
+    match a, b with
+    | x :: a', y :: b' => (x *! y) :: mul_lists a' b'
+    | _, _ => []
+    end.
+
+  (* py: knee_ranking.py:196-232  peak = np.max(y[knees]); d = fabs(peak - y[k]); weights / np.sum(weights) when the
+     sum is non-zero; rankings = fit * weights *)
+  Definition smooth_weights (c : list nat) : list (T N) :=
+    let peak := np_max (map (fun k => nth k ys zero) c) in
+    let w := map (fun k => abs (peak -! nth k ys zero)) c in
+    let s := np_sum w in
+    if s =?! zero then w else map (fun d => d /! s) w.
+  Definition smooth_score (m : fmode) (c : list nat) : list (T N) :=
+    mul_lists (map (smooth_fit m (hd 0 c) (last c 0)) c) (smooth_weights c).
+End Smooth.
+
+(* hull mode: the ranking the code sorts, as a score function (empty when the cluster is not ranked) *)
+Definition hull_score {N : Num} (hull : list nat) (sdist : nat -> nat -> T N) (xs : list (T N)) (c : list nat) : list (T N) :=
+  match hull_rankings hull sdist xs c with Some r => r | None => [] end.
